@@ -47,6 +47,19 @@ func (fe *FE) emitOpts(ob *Obligation, noQuant bool) string {
 			}
 		}
 	}
+	if !noQuant {
+		for _, name := range sortedKeys(fe.refHeaps) {
+			init := name + "!0"
+			if _, declared := fe.gdecls[init]; !declared {
+				continue
+			}
+			if fe.refHeaps[name] == 1 {
+				fmt.Fprintf(body, "(assert (forall ((a Int)) (! (=> (<= a cnt!entry) (<= (select %s a) cnt!entry)) :pattern ((select %s a)))))\n", init, init)
+			} else if fe.refHeaps[name] == 2 && strings.HasPrefix(name, "E_") && !strings.HasSuffix(name, ".arr") {
+				fmt.Fprintf(body, "(assert (forall ((a Int) (i Int)) (! (=> (<= a cnt!entry) (<= (select (select %s a) i) cnt!entry)) :pattern ((select (select %s a) i)))))\n", init, init)
+			}
+		}
+	}
 	for _, a := range fe.gaxioms {
 		body.WriteString("(assert " + a + ")\n")
 	}
@@ -244,6 +257,36 @@ func solveAll(fes []*FE, outDir string, timeout, workers int, second bool) {
 				r := race(file, 2, "z3-new")
 				if r.res != "unsat" && r.res != "sat" {
 					r = race(file, to, "")
+				}
+				if r.res != "unsat" && r.res != "sat" && !j.ob.Smoke {
+					// the solvers did not decide the goal as a whole: try it conjunct by conjunct
+					if pieces := splitGoal(j.ob.Goal); pieces != nil {
+						all := true
+						secs := r.secs
+						for pi, pg := range pieces {
+							ob2 := *j.ob
+							ob2.Goal = pg
+							t2 := j.fe.emit(&ob2)
+							f2 := strings.TrimSuffix(file, ".smt2") + fmt.Sprintf(".p%d.smt2", pi)
+							os.WriteFile(f2, []byte(t2), 0o644)
+							r2 := race(f2, 2, "z3-new")
+							if r2.res != "unsat" && r2.res != "sat" {
+								r2 = race(f2, to, "")
+							}
+							secs += r2.secs
+							if r2.res != "unsat" {
+								all = false
+								r = r2
+								r.secs = secs
+								file = f2
+								break
+							}
+							os.Remove(f2)
+						}
+						if all {
+							r = solveResult{"unsat", "split(" + fmt.Sprint(len(pieces)) + ")", "", secs}
+						}
+					}
 				}
 				j.ob.Result, j.ob.Solver, j.ob.Seconds, j.ob.File = r.res, r.solver, r.secs, file
 				if r.res == "sat" {
